@@ -159,6 +159,22 @@ impl<'r> Gen<'r> {
         }
     }
 
+    /// a comparison of two float operands, at least one a variable (so that NaN / infinities / zeros of the argument grid
+    /// reach it), not parenthesised and not negated: the statement's condition *is* the comparison
+    fn float_cmp(&mut self, scope: &[VarInfo]) -> Option<String> {
+        if !self.opts.floats {
+            return None;
+        }
+        let vs = self.vars_of(scope, T::Float, false);
+        if vs.is_empty() {
+            return None;
+        }
+        let l = self.rng.pick(&vs).clone();
+        let r = if self.rng.chance(1, 2) { self.rng.pick(&vs).clone() } else { self.leaf(T::Float, scope) };
+        let op = *self.rng.pick(&["<", "<=", ">", ">=", "==", "!="]);
+        Some(if self.rng.chance(1, 2) { format!("{} {} {}", l, op, r) } else { format!("{} {} {}", r, op, l) })
+    }
+
     /// right operand: sometimes of a different numeric type (usual arithmetic conversions)
     fn operand(&mut self, t: T, d: u32, scope: &[VarInfo]) -> String {
         if t != T::Bool && self.rng.chance(1, 6) {
@@ -350,13 +366,19 @@ impl<'r> Gen<'r> {
                 }
             }
             7 | 8 => {
-                out.push_str(&format!("{}if ({})\n{}{{\n", ind, self.expr(T::Bool, d, scope), ind));
-                self.block(depth - 1, &mut scope.clone(), in_loop, ret, &inner, out);
-                out.push_str(&format!("{}}}\n", ind));
-                if self.rng.chance(1, 2) {
-                    out.push_str(&format!("{}else\n{}{{\n", ind, ind));
-                    self.block(depth - 1, &mut scope.clone(), in_loop, ret, &inner, out);
-                    out.push_str(&format!("{}}}\n", ind));
+                // either side is sometimes empty (`{ }`, `;`, `{ { } }`): the then-side one time in five, and then there is
+                // always an else; conditions are often directly a comparison of floats (`expr(Bool)`, productions 0..2)
+                let cond = match self.float_cmp(scope) {
+                    Some(c) if self.rng.chance(1, 3) => c,
+                    _ => self.expr(T::Bool, d, scope),
+                };
+                out.push_str(&format!("{}if ({})\n", ind, cond));
+                let empty_then = self.rng.chance(1, 5);
+                self.body(empty_then, depth - 1, scope, in_loop, ret, ind, out);
+                if empty_then || self.rng.chance(1, 2) {
+                    out.push_str(&format!("{}else\n", ind));
+                    let empty_else = !empty_then && self.rng.chance(1, 5);
+                    self.body(empty_else, depth - 1, scope, in_loop, ret, ind, out);
                 }
             }
             9 | 10 => {
@@ -378,7 +400,16 @@ impl<'r> Gen<'r> {
                     2 => {
                         out.push_str(&format!("{}for ({} {} = 0; ; {} += 1)\n{}{{\n{}if ({} >= {})\n{}{{\n{}    break;\n{}}}\n", ind, tn(t), i, i, ind, inner, i, lim, inner, inner, inner));
                     }
-                    _ => out.push_str(&format!("{}for ({} {} = 0; {} < {}; ++{})\n{}{{\n", ind, tn(t), i, i, lim, i, ind)),
+                    _ => {
+                        // the loop condition carries a second conjunct (often a comparison of floats) half of the time; the
+                        // body is empty one time in six (`;` / `{ }`)
+                        let extra = if self.rng.chance(1, 2) { format!(" && {}", self.expr(T::Bool, 1, scope)) } else { String::new() };
+                        out.push_str(&format!("{}for ({} {} = 0; {} < {}{}; ++{})\n", ind, tn(t), i, i, lim, extra, i));
+                        sc.push(VarInfo { name: i, ty: t, assignable: false });
+                        let empty = self.rng.chance(1, 6);
+                        self.body_in(empty, depth - 1, &mut sc, true, ret, ind, out);
+                        return;
+                    }
                 }
                 sc.push(VarInfo { name: i, ty: t, assignable: false });
                 self.block(depth - 1, &mut sc, true, ret, &inner, out);
@@ -387,7 +418,8 @@ impl<'r> Gen<'r> {
             11 => {
                 let w = self.fresh("w");
                 let n = self.rng.below(4);
-                out.push_str(&format!("{}int {} = 0;\n{}while ({} < {})\n{}{{\n{}{}++;\n", ind, w, ind, w, n, ind, inner, w));
+                let extra = if self.rng.chance(1, 3) { format!(" && {}", self.expr(T::Bool, 1, scope)) } else { String::new() };
+                out.push_str(&format!("{}int {} = 0;\n{}while ({} < {}{})\n{}{{\n{}{}++;\n", ind, w, ind, w, n, extra, ind, inner, w));
                 scope.push(VarInfo { name: w, ty: T::Int, assignable: false });
                 self.block(depth - 1, &mut scope.clone(), true, ret, &inner, out);
                 out.push_str(&format!("{}}}\n", ind));
@@ -398,7 +430,8 @@ impl<'r> Gen<'r> {
                 out.push_str(&format!("{}int {} = 0;\n{}do\n{}{{\n{}{} += 1;\n", ind, w, ind, ind, inner, w));
                 scope.push(VarInfo { name: w.clone(), ty: T::Int, assignable: false });
                 self.block(depth - 1, &mut scope.clone(), true, ret, &inner, out);
-                out.push_str(&format!("{}}}\n{}while ({} < {});\n", ind, ind, w, n));
+                let extra = if self.rng.chance(1, 3) { format!(" && {}", self.expr(T::Bool, 1, scope)) } else { String::new() };
+                out.push_str(&format!("{}}}\n{}while ({} < {}{});\n", ind, ind, w, n, extra));
             }
             13 | 14 => {
                 // switch: distinct labels (some negative, some consecutive), fall-through, break, default anywhere
@@ -469,6 +502,27 @@ impl<'r> Gen<'r> {
                 self.block(depth - 1, &mut scope.clone(), in_loop, ret, &inner, out);
                 out.push_str(&format!("{}}}\n", ind));
             }
+        }
+    }
+
+    /// the body of an `if` / `else` / loop: a block in braces, or — when `empty` — one of `{ }`, `;`, `{ { } }`, `{ ; }`
+    fn body(&mut self, empty: bool, depth: u32, scope: &[VarInfo], in_loop: bool, ret: T, ind: &str, out: &mut String) {
+        self.body_in(empty, depth, &mut scope.to_vec(), in_loop, ret, ind, out)
+    }
+
+    fn body_in(&mut self, empty: bool, depth: u32, scope: &mut Vec<VarInfo>, in_loop: bool, ret: T, ind: &str, out: &mut String) {
+        let inner = format!("{}    ", ind);
+        if empty {
+            match self.rng.below(4) {
+                0 => out.push_str(&format!("{}{{\n{}}}\n", ind, ind)),
+                1 => out.push_str(&format!("{};\n", inner)),
+                2 => out.push_str(&format!("{}{{\n{}{{\n{}}}\n{}}}\n", ind, inner, inner, ind)),
+                _ => out.push_str(&format!("{}{{\n{};\n{}}}\n", ind, inner, ind)),
+            }
+        } else {
+            out.push_str(&format!("{}{{\n", ind));
+            self.block(depth, scope, in_loop, ret, &inner, out);
+            out.push_str(&format!("{}}}\n", ind));
         }
     }
 
